@@ -98,7 +98,7 @@ Proof.
 Qed.
 
 (* ------------------------------------------------------------------ C06 final_truthful *)
-Theorem final_truthful : forall W s j r, wf W = true -> reachable W s -> pc (jobs s j) = PReturned r ->
+Lemma final_truthful_inv : forall W s j r, Inv W s -> pc (jobs s j) = PReturned r ->
   st (jobs s j) = r /\
   match adopted W j with
   | Some v => r = v
@@ -106,7 +106,7 @@ Theorem final_truthful : forall W s j r, wf W = true -> reachable W s -> pc (job
   end /\
   (r <> DONE -> r = ERROR).
 Proof.
-  intros W s j r WF R P. pose proof (I_loc (reachable_inv W s WF R) j) as L. unfold jl in L.
+  intros W s j r I P. pose proof (I_loc I j) as L. unfold jl in L.
   pose proof (l_RT L P) as RT. split; auto.
   assert (F : finished (st (jobs s j)) = true) by (apply (l_A L); rewrite P; auto).
   assert (ST : started (pc (jobs s j)) = true) by (rewrite P; auto).
@@ -126,6 +126,16 @@ Proof.
            rewrite <- RT, X. unfold code_state. rewrite C. reflexivity.
   - intros N. rewrite <- RT in *. destruct (st (jobs s j)); simpl in F; try discriminate; auto. contradiction.
 Qed.
+
+Theorem final_truthful : forall W s j r, wf W = true -> reachable W s -> pc (jobs s j) = PReturned r ->
+  st (jobs s j) = r /\
+  match adopted W j with
+  | Some v => r = v
+  | None => r = DONE <-> (j_marker (spec W j) = true \/ ((launches (jobs s j) >= 1)%nat /\ j_code (spec W j) = 0))
+  end /\
+  (r <> DONE -> r = ERROR).
+Proof. intros W s j r WF R. apply final_truthful_inv. apply reachable_inv; auto. Qed.
+
 
 (* ------------------------------------------------------------------ C07 failures are contained *)
 (* j has an ancestor that ended in error, through jobs that were neither already successful in an
@@ -386,6 +396,45 @@ Proof.
   split; [|vm_compute; reflexivity].
   intros t. destruct t as [|t]; vm_compute; reflexivity.
 Qed.
+
+(* the FAIL branch of dependencychanged before fb683b6 (it only tested finished()): while the process an
+   earlier scheduler left for job 1 is still running, the failure of its input 0 shows job 1 ERROR; job 2,
+   submitted in that window, is cancelled for good; then the old process ends well: job 1 returns DONE,
+   job 2 has returned ERROR / DEPENDENCY although the only job it depends on is DONE *)
+Definition fixed_but6 := {| fx2 := true; fx3 := true; fx4 := true; fx5 := true; fx6 := false |}.
+Definition W_adoptfail : workload :=
+  {| w_jobs := [ {| j_deps := []; j_code := 1; j_marker := false; j_ident := 0; j_adopt := None |};
+                 {| j_deps := [DJob 0]; j_code := 0; j_marker := false; j_ident := 1; j_adopt := Some (Some 0, true) |};
+                 {| j_deps := [DJob 1]; j_code := 0; j_marker := false; j_ident := 2; j_adopt := None |} ];
+     w_tokens := [] |}.
+Definition X_adoptfail := [XSubmit 0; XSubmit 1; XDeliver 0; XDeliver 0; XDeliver 0; XDeliver 0; XSubmit 2;
+                           XDeliver 1; XDeliver 1; XDeliver 2]%nat.
+
+Theorem adoption_error_refuted : exists W ls s s1, wf W = true /\
+  steps_gen W fixed_but6 (init W) ls = Some s /\
+  (exists ls1, steps_gen W fixed_but6 (init W) ls1 = Some s1 /\ st (jobs s1 1) = ERROR /\ pc (jobs s1 1) = PExt AAdopt) /\
+  pc (jobs s 1) = PReturned DONE /\
+  pc (jobs s 2) = PReturned ERROR /\ fdep (jobs s 2) = true /\ launches (jobs s 2) = 0%nat /\
+  (forall k, In (DJob k) (deps W 2) -> st (jobs s k) = DONE).
+Proof.
+  exists W_adoptfail, (expand W_adoptfail fixed_but6 (init W_adoptfail) X_adoptfail).
+  exists (final W_adoptfail fixed_but6 (expand W_adoptfail fixed_but6 (init W_adoptfail) X_adoptfail)).
+  exists (final W_adoptfail fixed_but6 (expand W_adoptfail fixed_but6 (init W_adoptfail) (firstn 6 X_adoptfail))).
+  split; [reflexivity|]. split; [apply final_some; vm_compute; reflexivity|].
+  split.
+  { exists (expand W_adoptfail fixed_but6 (init W_adoptfail) (firstn 6 X_adoptfail)).
+    split; [apply final_some; vm_compute; reflexivity|]. split; vm_compute; reflexivity. }
+  split; [vm_compute; reflexivity|]. split; [vm_compute; reflexivity|]. split; [vm_compute; reflexivity|].
+  split; [vm_compute; reflexivity|].
+  intros k D. vm_compute in D. destruct D as [D|[]]. inversion D; subst. vm_compute. reflexivity.
+Qed.
+
+(* on the repaired scheduler the same schedule leaves job 1 RUNNING until its process ends and lets job 2 run *)
+Example adoption_repaired :
+  let s := final W_adoptfail all_fixed (expand W_adoptfail all_fixed (init W_adoptfail)
+             (X_adoptfail ++ [XDeliver 2; XDeliver 2; XDeliver 2; XDeliver 2])) in
+  pc (jobs s 1) = PReturned DONE /\ pc (jobs s 2) = PReturned DONE /\ launches (jobs s 2) = 1%nat.
+Proof. cbv zeta. repeat split; vm_compute; reflexivity. Qed.
 
 (* the same schedules on the repaired scheduler end well *)
 Example repaired_runs_end_well :
